@@ -7,10 +7,10 @@ Import ListNotations.
 Local Open Scope string_scope.
 
 Example tie_C20_raises_pulse_sequence__parse_args :
-  raises_pulse_sequence__parse_args = [("TypeError", "not hasattr(dt, '__len__')"); ("ValueError", "not np.isreal(dt).all()"); ("ValueError", "(dt < 0).any()"); ("ValueError", "control_args[0].shape[-2:] != noise_args[0].shape[-2:]"); ("ValueError", "not hasattr(basis, 'btype')"); ("ValueError", "basis.shape[1:] != (d, d)")].
+  raises_pulse_sequence__parse_args = [("TypeError", "not hasattr(dt, '__len__') or isinstance(dt, (str, bytes))"); ("ValueError", "not np.isreal(dt).all()"); ("ValueError", "(dt < 0).any()"); ("ValueError", "control_args[0].shape[-2:] != noise_args[0].shape[-2:]"); ("ValueError", "not hasattr(basis, 'btype')"); ("ValueError", "basis.shape[1:] != (d, d)")].
 Proof. reflexivity. Qed.
 Example tie_C20_raises_pulse_sequence__parse_Hamiltonian :
-  raises_pulse_sequence__parse_Hamiltonian = [("TypeError", "not isinstance(H, (list, tuple))"); ("TypeError", "not all((isinstance(item, (list, tuple)) for item in H))"); ("TypeError", "not all((hasattr(coeff, '__len__') for coeff in coeffs))"); ("ValueError", "len(set(identifiers)) != len(identifiers)"); ("ValueError", "not all((len(coeff) == n_dt for coeff in coeffs))")].
+  raises_pulse_sequence__parse_Hamiltonian = [("TypeError", "not isinstance(H, (list, tuple))"); ("TypeError", "not all((isinstance(item, (list, tuple)) for item in H))"); ("TypeError", "not args"); ("TypeError", "not all((hasattr(coeff, '__len__') for coeff in coeffs))"); ("ValueError", "len(set(identifiers)) != len(identifiers)"); ("ValueError", "not all((len(coeff) == n_dt for coeff in coeffs))")].
 Proof. reflexivity. Qed.
 Example tie_C20_raises_pulse_sequence_PulseSequence___init__ :
   raises_pulse_sequence_PulseSequence___init__ = [("TypeError", "len(args) < 3")].
@@ -28,13 +28,13 @@ Example tie_C20_raises_pulse_sequence_concatenate_without_filter_function :
   raises_pulse_sequence_concatenate_without_filter_function = [("TypeError", "except TypeError"); ("TypeError", "not all((hasattr(pls, 'c_opers') for pls in pulses))"); ("ValueError", "len(set((pulse.c_opers.shape[1:] for pulse in pulses))) != 1"); ("ValueError", "not util.all_array_equal((pulse.basis for pulse in pulses))")].
 Proof. reflexivity. Qed.
 Example tie_C20_raises_pulse_sequence_concatenate :
-  raises_pulse_sequence_concatenate = [("ValueError", "calc_filter_function"); ("ValueError", "calc_pulse_correlation_FF")].
+  raises_pulse_sequence_concatenate = [("TypeError", "not hasattr(pulses[0], 'c_opers')"); ("ValueError", "calc_filter_function"); ("ValueError", "calc_pulse_correlation_FF")].
 Proof. reflexivity. Qed.
 Example tie_C20_raises_pulse_sequence_concatenate_periodic :
   raises_pulse_sequence_concatenate_periodic = [("TypeError", "not hasattr(pulse, 'c_opers')"); ("TypeError", "except TypeError")].
 Proof. reflexivity. Qed.
 Example tie_C20_raises_pulse_sequence_extend :
-  raises_pulse_sequence_extend = [("ValueError", "except ValueError"); ("ValueError", "not all((pulse.d == d_per_qubit for pulse in single_qubit_pulses))"); ("ValueError", "not all((pulse.d == d_per_qubit ** len(qubits) for pulse, qubits in zip(multi_qubit_pulses, multi_qubit_idx)))"); ("ValueError", "not util.all_array_equal((pulse.dt for pulse in pulses))"); ("ValueError", "len(active_qubits) != len(active_qubits_list)"); ("ValueError", "last_qubit + 1 > N"); ("ValueError", "not equal_omega"); ("ValueError", "cache_diagonalization is False and additional_noise_Hamiltonian is not None"); ("ValueError", "add_n_opers.shape[1:] != (d, d)"); ("ValueError", "any((n_oper_id in n_oper_identifiers for n_oper_id in add_n_oper_id))")].
+  raises_pulse_sequence_extend = [("ValueError", "except ValueError"); ("ValueError", "not all((pulse.d == d_per_qubit for pulse in single_qubit_pulses))"); ("ValueError", "not all((pulse.d == d_per_qubit ** len(qubits) for pulse, qubits in zip(multi_qubit_pulses, multi_qubit_idx)))"); ("ValueError", "not util.all_array_equal((pulse.dt for pulse in pulses))"); ("ValueError", "len(active_qubits) != len(active_qubits_list)"); ("ValueError", "last_qubit + 1 > N"); ("ValueError", "not equal_omega"); ("ValueError", "cache_diagonalization is False and additional_noise_Hamiltonian is not None"); ("ValueError", "add_n_opers.shape[1:] != (d, d)"); ("ValueError", "any((n_oper_id in n_oper_identifiers for n_oper_id in add_n_oper_id))"); ("ValueError", "len(set(c_oper_identifiers)) != len(c_oper_identifiers) or len(set(n_oper_identifiers)) != len(n_oper_identifiers)")].
 Proof. reflexivity. Qed.
 Example tie_C20_raises_pulse_sequence_PulseSequence_get_pulse_correlation_control_matrix :
   raises_pulse_sequence_PulseSequence_get_pulse_correlation_control_matrix = [("util.CalculationError", "")].
@@ -77,6 +77,9 @@ Example tie_C20_raises_basis_Basis___new__ :
 Proof. reflexivity. Qed.
 Example tie_C20_raises_basis__full_from_partial :
   raises_basis__full_from_partial = [("ValueError", "not elems.isorthonorm"); ("ValueError", "traceless and (not elems.istraceless)"); ("ValueError", "labels is not None and len(labels) not in (len(elems), elems.d ** 2)")].
+Proof. reflexivity. Qed.
+Example tie_C20_raises_pulse_sequence__map_identifiers :
+  raises_pulse_sequence__map_identifiers = [("ValueError", "except KeyError"); ("ValueError", "len(set(remapped_identifiers)) != len(remapped_identifiers)")].
 Proof. reflexivity. Qed.
 
 Example tie_C20_hashes :
